@@ -6,11 +6,24 @@ import json, re
 from pathlib import Path
 
 STRENGTHENING = {
-    ('C12', 'Q'): 'missed by C12: the predicates of the event alternatives were atomic, so splitting a predicate over its conjuncts could not show; a conjunctive and a disjunctive predicate on the first alternative were added as decorations',
-    ('C13', 'R'): 'missed by C13: the term grammar has = and < only, and negate was never applied to a predicate whose top is >=; an operator matrix (all six comparisons x 7 operand shapes, the connectives, inclusions, quantifiers, each also below `not`) was added for negate (once and twice), the replacements, the event rewrite and join',
-    ('C16', 'R'): 'missed by C16: no probe built a specification around an existing property; HplSpecification((obj,)) and ((obj, obj)) were added to the alphabet of properties',
-    ('C20', 'Q'): 'missed by C20 (the change is in HplFunctionCall, outside src/hpl/types.py; C03 reaches it): the operand stored by each of 9 constructors must carry exactly the intersection of its type set with the parameter type',
-    ('C20', 'R'): 'missed by C20 (the change is in the predicate-level reference table; C03 / C05 reach it): a reference used as a primitive and as the domain of a quantifier must be rejected',
+    ('C01', 'S'): 'missed by C01: the numeric constants among the atoms were PI and E only (NAN compares unequal to itself and had been left out); every constant (PI, E, INF, NAN) is now placed in 15 operand slots through three entry points, compared NaN-safely',
+    ('C01', 'T'): 'missed by C01: no ill-formed text contained a letter, digit or mark outside ASCII inside a name; 11 such characters x 6 positions in a name x 20 kinds of name slot were added',
+    ('C04', 'T'): 'missed by C04: alias-bound disjunctions had two members with one alias; wrappers whose alias is bound by the middle / the last of three alternatives that each bind an alias were added',
+    ('C05', 'S'): 'missed by C05: every clash was presented as text (the parser pre-casts operands itself); each injected and each reuse clash is now also built bottom-up with the constructors',
+    ('C06', 'T'): 'missed by C06: every object was printed once, whole first; predicates and properties are now also printed through a twin whose parts are printed before and after the whole',
+    ('C07', 'T'): 'missed by C07: type errors whose message names a combination of base types were not provoked; quantifiers over set literals with members of 1-3 kinds among 9 x 14 typed uses of the variable were added',
+    ('C08', 'T'): 'missed by C08: the long-range family only asked sum(...) >= 0; the folded sum and length are now equated with the exact integers (and with them +- 1) for 9 upper bounds from 2**26.5 to 2**64 x 3 lower bounds x 4 bracket forms',
+    ('C10', 'T'): 'missed by C10: no directly nested quantifiers whose inner domain is built from the outer variable; all four kind pairs over 4 inner domains x pairs of 7 members were added',
+    ('C11', 'T'): 'missed by C11: no alternative had the literal False as predicate; two decorations (False on the first / the last alternative of every event) were added',
+    ('C12', 'S'): 'missed by C12: the two events of a pattern never shared a topic; alternatives equal to or overlapping the other event (and False-predicate alternatives) were added for every pattern under three scopes',
+    ('C12', 'T'): 'missed by C12: the API-built window property never printed like an earlier property of the same process; a window [T/2, T] property is now built right after the parsed property with the bound T',
+    ('C13', 'T'): 'missed by C13: a quantifier over a literal range or set that mentions the alias needs 6+ nodes, beyond the term bound of the quick tier; 2 quantifiers x 5 references x 6 literal domains x 3 bodies (and two nested ones) were added to the operator matrix',
+    ('C14', 'T'): 'missed by C14: no term had a sum of two sums next to a literal -1 (9 nodes); every bracketing of four operands under + and * combined with -1, 0, 1, 2 on either side under * + - / was added',
+    ('C16', 'S'): 'missed by C16: the equality / hash probe set an arbitrary metadata key, not the documented id; twins now differ in id, title and description (set through the dictionary and through annotations), the hash is taken before and after, and the twins must collapse in a set',
+    ('C17', 'T'): 'missed by C17: every type token was a fresh object; the helper queries now also run on message types whose equal sub-messages are one shared token object, and on a pair of twists',
+    ('C19', 'T'): 'missed by C19: the longest file had three properties; files just beyond 4 KiB, 8 KiB, 64 KiB and 128 KiB (thorough: 1 MiB) were added, valid and with the only error in the last property',
+    ('C20', 'S'): 'missed by C20: the constructor probe covered 9 operand slots, not range bounds; it now covers 27 (operators of each class, accessors, function arguments, range bounds, set members, the container of `in`, quantifier domain and body)',
+    ('C20', 'T'): 'missed by C20: the bound variable was used directly in the body; it is now also used under a connective and one and two nested quantifiers down, over one- and two-kind set domains and ranges',
 }
 
 
@@ -34,10 +47,10 @@ def parse(path):
 
 def main():
     old = {}
-    for f in ('/tmp/seed10_eval_a.log', '/tmp/seed10_eval_b.log'):
+    for f in ('/tmp/seed10_eval_a.log', '/tmp/seed10_eval_b.log', '/tmp/seed10_eval_b2.log', '/tmp/seed10_eval_b3.log'):
         old.update(parse(f))
     new = {}
-    for f in ('/tmp/seed10_eval_c.log',):
+    for f in ('/tmp/seed10_eval_c.log', '/tmp/seed10_eval_d.log', '/tmp/seed10_eval_e.log', '/tmp/seed10_eval_f.log', '/tmp/seed10_eval_g.log'):
         new.update(parse(f))
     n_missed = 0
     for key in sorted(old):
@@ -56,8 +69,8 @@ def main():
                          'first with VERIF_DIR pointing at a worktree of /verif as it was when the change arrived, then (if missed) with the strengthened checks'],
         }
         if tests and 'failed' in tests:
-            meta['confirmed_by_me']['note'] = 'that run hit the pre-existing Hypothesis flake of test_valid_generated_properties (a generated topic that is a keyword, e.g. no); 3 re-runs with the change passed 49/49'
-            meta['confirmed_by_me']['repository_tests_with_change'] = '49 passed on 3 re-runs (first run: ' + tests + ')'
+            meta['confirmed_by_me']['note'] = 'that run was made while 12 other evaluations shared the machine (load average above 70) and hit a Hypothesis deadline / the pre-existing flake of test_valid_generated_properties; re-run on its own (/tmp/retest.sh) the suite passed 49/49 with the change'
+            meta['confirmed_by_me']['repository_tests_with_change'] = '49 passed on the re-run (first run: ' + tests + ')'
         missed = not o['sigs']
         sigs = o['sigs'] if not missed else (n['sigs'] if n else [])
         meta['detected_by'] = {cid: {'tier': 'quick', 'signatures': sorted(set(sigs))[:6]}} if sigs else {}
